@@ -175,8 +175,7 @@ class Taxonomy:
             if is_literal(label_pattern):
                 self.literal_labels[LabelName(label_pattern)].append(TaxonName(taxon_pattern))
             else:
-                self.compiled_labels.append((regex.compile(f"(?:{label_pattern})$"), taxon_pattern))
-                # note: "$" is necessary: regex.fullmatch() has no regex.fullsub() counterpart
+                self.compiled_labels.append((regex.compile(label_pattern), taxon_pattern))
 
     @lru_cache(maxsize=None)
     def get_taxon_name_list(
@@ -219,8 +218,9 @@ class Taxonomy:
             return [TaxonName(label_name)]
         result: TaxonNames = self.literal_labels.get(label_name, [])
         for (label_regex_pattern, taxon_pattern) in self.compiled_labels:
-            if label_regex_pattern.match(label_name):
-                result.append(TaxonName(label_regex_pattern.sub(taxon_pattern, label_name)))
+            match = label_regex_pattern.fullmatch(label_name)
+            if match:
+                result.append(TaxonName(match.expand(taxon_pattern)))
         return result
 
     def to_taxa(self, labels: Labels) -> Taxa:
